@@ -113,10 +113,11 @@ Qed.
 
 Lemma SI_step a o : SI (ss a) -> SI (ss (fst (sp_step a o))).
 Proof.
-  intros HS. destruct o as [t p|k| | | |]; cbn [sp_step].
+  intros HS. destruct o as [t p|k| | | | |]; cbn [sp_step].
   - pose proof (SI_add (ss a) t p HS) as H. destruct (sp_add (ss a) t p) as [[s' h] x]. exact H.
   - destruct (pick_handle (shandles a) k) as [[t i]|]; [apply SI_cancel|]; exact HS.
   - pose proof (SI_fetch (ss a) HS) as H. destruct (sp_fetch (ss a)) as [s' x]. exact H.
+  - exact HS.
   - exact HS.
   - exact HS.
   - exact HS.
@@ -132,7 +133,7 @@ Fixpoint fetched_times (outs : list out) : list N :=
 
 Lemma tcur_step_mono a o : SI (ss a) -> s_tcur (ss a) <= s_tcur (ss (fst (sp_step a o))).
 Proof.
-  intros [Hs Hz Hr Hi Hn]. destruct o as [t p|k| | | |]; cbn [sp_step]; try (cbn [fst]; lia).
+  intros [Hs Hz Hr Hi Hn]. destruct o as [t p|k| | | | |]; cbn [sp_step]; try (cbn [fst]; lia).
   - unfold sp_add. destruct (t <? s_tcur (ss a)); [cbn; lia|]. destruct (t =? s_tcur (ss a)); cbn; lia.
   - destruct (pick_handle (shandles a) k) as [[t i]|]; [|cbn [fst]; lia]. cbn [fst ss]. unfold sp_cancel.
     destruct (remove_id i (s_zero (ss a))); [cbn; lia|]. destruct (remove_id i (s_rest (ss a))); cbn; lia.
@@ -148,7 +149,7 @@ Proof.
   induction ops as [|o ops IH]; intros a HS; cbn [sp_run_from]; [split; constructor|].
   pose proof (SI_step a o HS) as HS'. pose proof (tcur_step_mono a o HS) as Hm.
   assert (Hout : forall p t, snd (sp_step a o) = OFetched p t -> s_tcur (ss (fst (sp_step a o))) = t /\ s_tcur (ss a) <= t).
-  { intros p t E. destruct o as [t' p'|k| | | |]; cbn [sp_step] in *.
+  { intros p t E. destruct o as [t' p'|k| | | | |]; cbn [sp_step] in *.
     - unfold sp_add in E. destruct (t' <? s_tcur (ss a)); [discriminate|]. destruct (t' =? s_tcur (ss a)); discriminate.
     - destruct (pick_handle (shandles a) k) as [[? ?]|]; discriminate.
     - destruct HS as [Hs Hz Hr Hi Hn]. unfold sp_fetch in *. destruct (s_zero (ss a)) as [|x z] eqn:Ez.
@@ -157,7 +158,8 @@ Proof.
       + cbn in *. injection E as _ <-. rewrite (Hz x (or_introl eq_refl)). split; [reflexivity|lia].
     - discriminate.
     - discriminate.
-    - cbn in E. unfold sp_peek in E. destruct (s_zero (ss a)); [destruct (s_rest (ss a))|]; discriminate. }
+    - cbn in E. unfold sp_peek in E. destruct (s_zero (ss a)); [destruct (s_rest (ss a))|]; discriminate.
+    - discriminate. }
   destruct (sp_step a o) as [a' x]. cbn [fst snd] in *. specialize (IH a' HS').
   destruct (sp_run_from a' ops) as [a'' xs]. cbn [snd] in *. destruct IH as [Hall Hsort].
   assert (Hall' : Forall (fun t => s_tcur (ss a) <= t) (fetched_times xs)).
@@ -235,7 +237,7 @@ Proof. induction l1 as [|x l1 IH]; cbn [app find_id]; [reflexivity|]. destruct (
 
 Lemma Acct_step a g o : SI (ss a) -> Acct a g -> Acct (fst (sp_step a o)) (ghost_step a g o).
 Proof.
-  intros HS [P [Hn Hi]]. destruct o as [t p|k| | | |]; cbn [sp_step ghost_step]; try (repeat split; assumption).
+  intros HS [P [Hn Hi]]. destruct o as [t p|k| | | | |]; cbn [sp_step ghost_step]; try (repeat split; assumption).
   - (* add *)
     unfold sp_add. destruct (t <? s_tcur (ss a)) eqn:E1; cbn [fst ss]; [repeat split; assumption|].
     set (e := {| etime := t; eid := s_next (ss a); epay := p |}).
@@ -323,7 +325,7 @@ Proof.
   - specialize (IH (fst (sp_step a o)) (ghost_step a g o)). destruct IH as [IH1 IH2].
     destruct (sp_step a o) as [a' x] eqn:Es. cbn [fst] in *.
     destruct (sp_run_from a' ops) as [a'' xs] eqn:Er. cbn [fst snd] in *. split; [|exact IH2].
-    rewrite IH1. destruct o as [t p|k| | | |]; cbn [sp_step ghost_step] in *.
+    rewrite IH1. destruct o as [t p|k| | | | |]; cbn [sp_step ghost_step] in *.
     + unfold sp_add in Es. destruct (t <? s_tcur (ss a)); [injection Es as <- <-; reflexivity|].
       destruct (t =? s_tcur (ss a)); injection Es as <- <-; reflexivity.
     + destruct (pick_handle (shandles a) k) as [[? i]|]; [|injection Es as <- <-; reflexivity].
@@ -335,6 +337,7 @@ Proof.
     + injection Es as <- <-. reflexivity.
     + injection Es as <- <-. reflexivity.
     + injection Es as <- <-. unfold sp_peek. destruct (s_zero (ss a)); [destruct (s_rest (ss a))|]; reflexivity.
+    + injection Es as <- <-. reflexivity.
 Qed.
 
 Theorem fetched_are_ghost ts ops :
